@@ -4,7 +4,8 @@
 //! file in normalised form (output keys and oracle answers recomputed from the code as it is now).
 //!
 //! Case line:
-//!   <label> S <strategy 0..3> E <fee_coefficient> <fee_constant> <coins_per_utxo_byte>
+//!   <label> S <strategy 0..3> E <fee_coefficient> <fee_constant> <coins_per_utxo_byte> [R <n|e> <fee>]
+//!                                       (R: fee request of the builder, n = set_min_fee, e = set_fee)
 //!   O <n> {<id> <addr> <value>}*        offered UTxOs (TransactionUnspentOutputs, in order)
 //!   P <n> {<id> <addr> <value>}*        regular inputs already in the builder
 //!   I <coin>                            implicit input (one withdrawal of that amount; 0 = none)
@@ -37,7 +38,7 @@ struct V { coin: u64, ma: Option<Vec<(Vec<u8>, Vec<u8>, u64)>> }
 struct U { id: u64, addr: String, val: V }
 #[derive(Clone, Debug)]
 struct Case {
-    label: String, strat: u8, fee_a: u64, fee_b: u64, cpb: u64,
+    label: String, strat: u8, fee_a: u64, fee_b: u64, cpb: u64, req: Option<(bool, u64)>,   // fee request: (exact?, fee)
     offered: Vec<U>, pre: Vec<U>, implicit: u64, mint: V, outs: Vec<U>, deposit: u64, burn: V, donation: Option<u64>,
     choices: Vec<u64>,
 }
@@ -67,6 +68,7 @@ fn parse_case(t: &[String]) -> Case {
     let label = p.next().to_string();
     p.expect("S"); let strat = p.u64() as u8;
     p.expect("E"); let fee_a = p.u64(); let fee_b = p.u64(); let cpb = p.u64();
+    let req = if p.t[p.i] == "R" { p.next(); let k = p.next(); let f = p.u64(); Some((k == "e", f)) } else { None };
     p.expect("O"); let offered = p.utxos();
     p.expect("P"); let pre = p.utxos();
     p.expect("I"); let implicit = p.u64();
@@ -76,7 +78,7 @@ fn parse_case(t: &[String]) -> Case {
     p.expect("B"); let burn = p.value();
     p.expect("N"); let d = p.next(); let donation = if d == "~" { None } else { Some(d.parse().unwrap()) };
     p.expect("C"); let n: usize = p.next().parse().unwrap(); let choices = (0..n).map(|_| p.u64()).collect();
-    Case { label, strat, fee_a, fee_b, cpb, offered, pre, implicit, mint, outs, deposit, burn, donation, choices }
+    Case { label, strat, fee_a, fee_b, cpb, req, offered, pre, implicit, mint, outs, deposit, burn, donation, choices }
 }
 fn show_v(v: &V) -> String {
     match &v.ma {
@@ -102,8 +104,9 @@ fn show_case(c: &Case) -> String {
         keyed[i].id = k as u64;
     }
     let ch: Vec<String> = c.choices.iter().map(|x| x.to_string()).collect();
-    format!("{} S {} E {} {} {} O {} P {} I {} M {} T {} D {} B {} N {} C {}{}{}",
-        c.label, c.strat, c.fee_a, c.fee_b, c.cpb, show_us(&c.offered), show_us(&c.pre), c.implicit, show_v(&c.mint),
+    let req = match c.req { None => String::new(), Some((e, f)) => format!(" R {} {}", if e { "e" } else { "n" }, f) };
+    format!("{} S {} E {} {} {}{} O {} P {} I {} M {} T {} D {} B {} N {} C {}{}{}",
+        c.label, c.strat, c.fee_a, c.fee_b, c.cpb, req, show_us(&c.offered), show_us(&c.pre), c.implicit, show_v(&c.mint),
         show_us(&keyed), c.deposit, show_v(&c.burn), c.donation.map(|d| d.to_string()).unwrap_or("~".into()),
         ch.len(), if ch.is_empty() { "" } else { " " }, ch.join(" "))
 }
@@ -187,6 +190,7 @@ fn builder(c: &Case, inputs: &[&U]) -> Result<TransactionBuilder, String> {
         tb.set_mint_builder(&mb);
     }
     if let Some(d) = c.donation { tb.set_donation(&BigNum::from(d)); }
+    match c.req { Some((true, f)) => tb.set_fee(&BigNum::from(f)), Some((false, f)) => tb.set_min_fee(&BigNum::from(f)), None => {} }
     Ok(tb)
 }
 
@@ -450,7 +454,7 @@ fn gen_scenario(r: &mut Rng, max_utxos: u64) -> Case {
         if !pre.is_empty() && r.chance(1, 2) { offered[j].id = pre[0].id; offered[j].addr = pre[0].addr.clone(); offered[j].val = pre[0].val.clone(); }
         else { let k = r.below(offered.len() as u64) as usize; let src = offered[k].clone(); offered[j] = src; }
     }
-    let mut c = Case { label: format!("f{}", family / 10), strat, fee_a, fee_b, cpb, offered, pre, implicit, mint, outs, deposit, burn, donation, choices: vec![] };
+    let mut c = Case { label: format!("f{}", family / 10), strat, fee_a, fee_b, cpb, req: None, offered, pre, implicit, mint, outs, deposit, burn, donation, choices: vec![] };
     // improvement followed by a fee top-up: ADA-only random-improve with a deposit of the order of the outputs
     if family % 15 == 3 && !multi {
         c.label = "sw".to_string();
